@@ -21,7 +21,8 @@ META = {
             "give EXACTLY the identity on gluon, the nf active quarks/antiquarks and all inactive heavy quarks; with QED also on the "
             "photon, in pure QCD the photon row and column are zero; (3) the same with the debug skip flags off only (the flags "
             "deliberately drop sectors)."
-            " (4) several requests in ONE evaluator with the initial point on a matching scale and alternating initial flavour numbers: the parts to compute for target = initial point are the single empty segment (no state of an earlier request leaks into the path).",
+            " (4) several requests in ONE evaluator with the initial point on a matching scale and alternating initial flavour numbers: the parts to compute for target = initial point are the single empty segment (no state of an earlier request leaks into the path)."
+            " (5) parts.evolve asked four times in ONE evaluator (zero-length segments in pure QCD, with QED, in QCD again; a final segment while the store holds its cliff twin): every part is the flavour tensor of the operator built for that request.",
     "note": "The statement is exact for the shortcut path, which is the path taken by every configuration the property covers "
             "(polarised/time-like flags, method and grid do not enter that path: decided by the absence of reads of those "
             "settings on it). The numerically integrated path of an expanded scale variation is excluded by the property.",
@@ -139,10 +140,96 @@ def run(chk):
                f"the identity path reads settings {sorted(reads - allowed)} that must not influence it", where=fcomp.where,
                detail=f"settings read on the identity path: {sorted(reads)}")
     _second_request_in_one_process(chk, src)
+    evolve_uses_its_own_operator(chk, src)
     chk.floor("configurations", len(cases), 24)
     chk.note(instances=len(cases) * 12, files=["src/eko/evolution_operator/__init__.py", "src/eko/evolution_operator/physical.py",
                                                "src/eko/member.py", "src/eko/evolution_operator/flavors.py"])
     chk.explanation = "Identity shortcut: truth table and exact identity tensor for every order/nf/scale-variation configuration."
+
+
+def evolve_uses_its_own_operator(chk, src, rule="part-comes-from-the-operator-of-this-request"):
+    """runner.parts.evolve asked several times in ONE process: zero-length segments in pure QCD, with QED, in QCD again, and a final
+    (non-cliff) segment while the store already holds its twin computed as a cliff.  Every answer is the flavour tensor of the
+    operator built for THAT request (its own members, the qed flag of its card, the threshold flag of its recipe) - nothing kept
+    from an earlier request or found in the store stands in for it.  The Operator is the real class on a synthetic object (real
+    compute, recording integrate); the blow-up to the flavour basis is a recording stand-in (shared with C53)."""
+    from ..pe import Opaque, named_arguments
+
+    fev = src.func("eko.runner.parts.evolve")
+    pe = PE(src)
+    built = []
+
+    def mk_operator(p_, a, k):
+        kw = named_arguments(k)
+        seg = kw.get("segment")
+        order = current["order"]
+        o = _make_operator(p_, src, order, 4, current["sv"], Fraction(2), bool(kw.get("is_threshold")))
+        o.attrs.update(q2_from=p_.getattr(seg, "origin"), q2_to=p_.getattr(seg, "target"), nf=p_.getattr(seg, "nf"))
+        built.append((o, kw))
+        return o
+
+    pe.overrides[OP] = mk_operator
+    pe.overrides[f"{OP}.integrate"] = lambda pe_, a, k: None
+    pe.overrides["eko.runner.parts._evolve_configs"] = lambda p_, a, k: "CONFIGS"
+    pe.overrides["eko.runner.parts._managers"] = lambda p_, a, k: "MANAGERS"
+
+    class Map(Opaque):
+        def __init__(self, members, qed):
+            self.members, self.qed = members, qed
+
+        def to_flavor_basis_tensor(self, qed=False):
+            return (("RES", id(self.members), self.qed, qed), ("ERR", id(self.members), self.qed, qed))
+
+    pe.overrides["eko.evolution_operator.physical.PhysicalOperator.ad_to_evol_map"] = \
+        lambda p_, a, k: Map(named_arguments(k).get("op_members"), named_arguments(k).get("qed"))
+    evc = src.cls("eko.io.items.Evolution")
+    current = {}
+    n = 0
+    bad = None
+    svm = pe.enum_members(pe.get_global("eko.io.types", "ScaleVariationsMethod").cls)
+    requests = [("zero-length segment, pure QCD", (1, 0), "unvaried", Fraction(100), False, False),
+                ("zero-length segment, QCD x QED", (1, 1), "unvaried", Fraction(100), False, False),
+                ("zero-length segment, pure QCD again", (2, 0), "unvaried", Fraction(100), False, False),
+                ("final segment while the store holds the same segment computed as a cliff, expanded scheme", (2, 0), "expanded", Fraction(400), False, True)]
+    for label, order, sv, q_to, cliff, twin in requests:
+        current.update(order=order, sv=sv)
+        eko = Opaque()
+        eko.theory_card = Opaque()
+        eko.theory_card.order = order
+        eko.operator_card = Opaque()
+        eko.operator_card.configs = Opaque()
+        eko.operator_card.configs.scvar_method = next((v for k_, v in svm.items() if k_.upper() == sv.upper()), None)
+        rec = pe.instantiate(evc.qname, [Fraction(100), q_to, 4], {"cliff": cliff})
+        eko.parts = {pe.hashable(pe.instantiate(evc.qname, [Fraction(100), q_to, 4], {"cliff": not cliff})): "TWIN-PART"} if twin else {}
+        before = len(built)
+        try:
+            out = pe.call(fev.qname, [eko, rec])
+        except PERaise as e:
+            if "out of date" in str(e):
+                raise
+            bad = bad or (label, f"raises {e}")
+            continue
+        n += 1
+        new = built[before:]
+        qed = order[1] > 0
+        why = None
+        if len(new) != 1:
+            why = f"builds {len(new)} operators"
+        elif bool(new[0][1].get("is_threshold")) != cliff:
+            why = f"builds its operator with is_threshold={new[0][1].get('is_threshold')} for a recipe with cliff={cliff}"
+        else:
+            res = pe.getattr(out, "operator") if isinstance(out, Obj) else None
+            members = new[0][0].attrs.get("op_members")
+            if not (isinstance(res, tuple) and res[:1] == ("RES",) and res[1] == id(members) and res[2] is qed and res[3] is qed):
+                why = (f"returns {('the tensor of another operator / request ' + str(res[2:])) if isinstance(res, tuple) else repr(out)[:60]} "
+                       f"instead of the flavour tensor of the operator built for this request with qed={qed}")
+        if why and bad is None:
+            bad = (label, why)
+    chk.decide(bad is None, rule, fev.qname,
+               f"parts.evolve asked {len(requests)} times in one process: request `{bad[0] if bad else ''}` {bad[1] if bad else ''} - the part depends on what "
+               f"was computed before or on what the store holds", where=fev.where, instance="requests in one process",
+               how="PE of consecutive requests in one evaluator (real Operator.compute, recording blow-up)")
+    chk.floor("evolve requests", n, 4)
 
 
 def _second_request_in_one_process(chk, src):
